@@ -4,9 +4,15 @@
 patch="$(readlink -f "$1")"; demo="$2"; [ "$demo" != "-" ] && demo="$(readlink -f "$2")"; pid="$3"; tier="${4:-quick}"
 here="$(cd "$(dirname "$0")/.." && pwd)"
 wt="$(mktemp -d /tmp/mutrun-XXXXXX)"; rmdir "$wt"
+base="${MUT_BASE:-HEAD}"
 git -C /repo worktree add -q --detach "$wt" HEAD || exit 2
 cleanup() { git -C /repo worktree remove --force "$wt" 2>/dev/null; rm -rf "$wt"; }
 trap cleanup EXIT
+if ! git -C "$wt" apply --check "$patch" 2>/dev/null && [ "$base" != "HEAD" ]; then
+  # the patch was written against an earlier repository commit (a later fix: commit touched the same lines): use that base
+  git -C /repo worktree remove --force "$wt"; git -C /repo worktree add -q --detach "$wt" "$base" || exit 2
+  echo "base=$base (patch does not apply to HEAD)"
+fi
 if [ "$demo" != "-" ]; then
   mkdir -p "$wt/mutants/x"; cp "$demo" "$wt/mutants/x/demo.py"
   (cd "$wt" && /venv/bin/python -B mutants/x/demo.py >/dev/null 2>&1); echo "demo_clean_rc=$?"
